@@ -113,7 +113,7 @@ class FaultRig(ClientRig):
     def _stale(self, awaited):
         """a legal response left over from an earlier transfer: different multiplexer or different phase;
         never bit-identical in form to the awaited one"""
-        kind = sx.choice(4, "stale_kind")
+        kind = sx.choice(4, "stale_kind") if getattr(self, "only_stale", None) is None else self.only_stale
         if kind == 0:       # expedited upload response for another multiplexer
             i2 = sx.fresh_int("st_idx", 0, 0xFFFF)
             s2 = sx.fresh_int("st_sub", 0, 0xFF)
@@ -127,7 +127,8 @@ class FaultRig(ClientRig):
         elif kind == 2:     # download initiate response for another multiplexer
             i2 = sx.fresh_int("st_idx", 0, 0xFFFF)
             s2 = sx.fresh_int("st_sub", 0, 0xFF)
-            sx.assume(((awaited[1] | (awaited[2] << 8)) != i2) | (awaited[3] != s2))
+            if bool(awaited[0] != 0x80):
+                sx.assume(((awaited[1] | (awaited[2] << 8)) != i2) | (awaited[3] != s2))
             fr = [0x60, i2 & 0xFF, i2 >> 8, s2, 0, 0, 0, 0]
         else:               # download segment acknowledge
             fr = [0x20 | sx.ite(sx.fresh_bool("st_tog"), 0x10, 0), 0, 0, 0, 0, 0, 0, 0]
@@ -273,6 +274,26 @@ def disturbed(kind, n, step, fault, follow="upload"):
     sx.reach("follow-up")
 
 
+def refused_with_stale(n):
+    """the device refuses the value of a download (abort at the confirming step) and, just before that abort, a stale
+    confirmation of the *other* kind of download step arrives (left over from a timed-out transfer): the call must
+    not report success"""
+    E = _exc()
+    ms = MultiServer()
+    ms.plain.refuse_commit = True
+    rig = FaultRig(ms, (0 if n <= 4 else 1 + (n - 1) // 7), "stale-between")
+    rig.only_stale = 2 if n > 4 else 3      # 0x60 while a segment confirmation is awaited; 0x20/0x30 at the initiate
+    idx = sx.fresh_int("idx", 0, 0xFFFF)
+    sub = sx.fresh_int("sub", 0, 0xFF)
+    payload = sx.fresh_bytes("p", n)
+    res = _run(rig, ms, "download", n, idx, sub, payload, None)
+    tag = "C07/refused-with-stale/%s" % ("expedited" if n <= 4 else "segmented")
+    sx.prove(rig.injected is not None, "stale frame not injected", tag + "/harness")
+    sx.prove(res[0] == "err", "a refused download was reported as successful", tag + "/reported-success")
+    sx.prove(len(ms.plain.commits) == 0, "refusing server committed", tag + "/harness")
+    sx.reach("refused-with-stale")
+
+
 def stale_before(kind, n, k=1):
     """k stale frames sit in the client's queue before the request is sent: they must be discarded"""
     ms = MultiServer()
@@ -364,6 +385,8 @@ def jobs(tier):
                     out.append(dict(func="disturbed", params=dict(kind=kind, n=n, step=step, fault=fault), weight=n + 5))
                 out.append(dict(func="disturbed", params=dict(kind=kind, n=n, step=step, fault="drop", follow="late"),
                                 weight=n + 5))
+    for n in (2, 4, 9, 15):
+        out.append(dict(func="refused_with_stale", params=dict(n=n)))
     for kind in ("upload", "download"):
         for n in (3, 9):
             for k in (1, 2, 3):
@@ -395,7 +418,7 @@ META = dict(
                     "OS-thread timing"],
     assumptions=["MAX_RETRIES = 1 (library default)"],
     stubs=["queue (time-out = empty queue)", "time", "struct", "io model", "binascii.crc_hqx model", "logging"],
-    required_reach=["failed-loudly", "completed-despite-fault", "timeout-abort", "follow-up", "stale-after-timeout",
+    required_reach=["refused-with-stale", "failed-loudly", "completed-despite-fault", "timeout-abort", "follow-up", "stale-after-timeout",
                     "stale-before", "real-server", "no-fault-at-this-step"],
     limits=dict(quick=dict(max_decisions=50000), thorough=dict(max_decisions=50000)),
     validate_every=dict(quick=4, thorough=20),
